@@ -160,5 +160,21 @@ check("C07",
       technique="exhaustive enumeration of operation histories up to a depth bound on the implementation against a reference model",
       engine="explore", design="3/C07", deadline={"quick": 150, "thorough": 1500})
 
+check("C12",
+      passes=[dict(name="C12", src=["harness/C12.cpp"] + ENV, variant="fast", shards={"quick": 16, "thorough": 16})],
+      rule="every history of <= 4 (quick) / <= 5 (thorough) region-opening operations (sub-region, class with 2 bases, union, enum "
+           "with 3 enumerators, namespace, closure, block, block with 2 handlers, mapping and lambda with 3 parameters, requires, "
+           "function declarator, where), each applied to ANY region created so far, in a plain translation unit; depth <= 3 / <= 4 in an "
+           "interface unit and a module implementation unit; in every final state, for every region: enclosing()==model parent, the "
+           "outward walk reaches the global region in exactly depth steps, global() only at the root (whose enclosing() throws "
+           "logic_error), owner() per kind; parameters/enumerators/bases: home region, level, zero-based position; handler regions; "
+           "unnamed global namespace typed `namespace`; module links. distinct_nontrivial = histories nesting to depth >= 2.",
+      text="All construction histories up to the bound on the real region/unit classes against a parent-pointer tree "
+           "and owner-map reference model.",
+      note="Not asserted (the property is silent): an owner for plain sub-regions, requires / function-declarator / where / "
+           "handler-parameter regions, and the home region of an exception parameter.",
+      technique="exhaustive enumeration of operation histories up to a depth bound on the implementation against a reference model",
+      engine="explore", design="3/C12", deadline={"quick": 150, "thorough": 1500})
+
 # Properties not claimed (with the reason that goes to MANIFEST.not_applicable).
 NOT_CLAIMED = {}
